@@ -196,10 +196,14 @@ class Impl:
             obs.join(10)
         return res, ord_, failed
 
-    def observe(self):
+    def observe(self, probe=True):
         obs = self.obs
         ems = list(obs.emitters)
         emitters = sorted([list(wkey(e.watch)), bool(e.is_alive())] for e in ems)
+        if not probe:
+            # dispatching a marker touches the handler table (a defaultdict): probing after EVERY call would heal
+            # states that only go wrong when nothing looks at them in between - so some steps are not probed
+            return emitters, None, bool(obs.is_alive())
         marks = {}
         for e in ems:
             self.nmark += 1
@@ -236,14 +240,22 @@ class Impl:
                     e.join(10)
 
 
+def probe_steps(seq):
+    """The steps after which marker events are sent: the last one always, the others by a fixed pseudo-random choice."""
+    import random
+    r = random.Random(core.digest(seq))
+    return {i for i in range(len(seq)) if i == len(seq) - 1 or r.random() < 0.4}
+
+
 def run_impl(seq):
     """seq: list of [call, fault]. Returns the list of per-call observations."""
     im = Impl()
     out = []
+    probes = probe_steps(seq)
     try:
-        for c, f in seq:
+        for i, (c, f) in enumerate(seq):
             res, ord_, failed = im.call(c, f)
-            ems, recv, alive = im.observe()
+            ems, recv, alive = im.observe(i in probes)
             out.append({"res": res, "ord": ord_, "failed": failed, "emitters": ems, "receivers": recv, "alive": alive})
     finally:
         im.close()
@@ -331,7 +343,7 @@ def oracle(seq, obs):
             if k == "U" and res == "Ok" and (set(keys) ^ sched) - {tuple(c[1])}:
                 law = "independence"
             return law, i, sorted(keys), sorted(sched)
-        for w, got in o["receivers"]:
+        for w, got in (o["receivers"] or []):
             w = tuple(w)
             want = sorted(hs.get(w, ()))
             if got != want:
@@ -529,6 +541,8 @@ def check_batch(ctx, res: Result, seqs, label, shrink=True, found=None):
         res.traces_validated += 1
         try:
             mo = model_obs(o)
+            # steps that were not probed with marker events have no receivers on the implementation side
+            mo = [dict(a, receivers=None) if b.get("receivers") is None else a for a, b in zip(mo, im)] + mo[len(im):]
         except Exception:
             mo = o
         if mo != im:
@@ -543,7 +557,10 @@ def check_batch(ctx, res: Result, seqs, label, shrink=True, found=None):
         # diagnosis: does the code under test follow the pinned statement order?
         pouts = core.run_model("registry", [model_case(seq, [dict(o, ord=o2) for o, o2 in zip(im, ords)], f2=False, f2b=False)
                                             for seq, im, ords in zip(metas, impls, orders)])
-        agree = sum(1 for o, im in zip(pouts, impls) if model_obs(o) == im)
+        def _same(o, im):
+            mo = model_obs(o)
+            return [dict(a, receivers=None) if b.get("receivers") is None else a for a, b in zip(mo, im)] + mo[len(im):] == im
+        agree = sum(1 for o, im in zip(pouts, impls) if _same(o, im))
         res.notes.append(f"{label}: {nmis} of {len(cases)} sequences differ from the model of the repaired code; the code under "
                          f"test agrees with the model of the PINNED statement order (f2=f2b=false) on {agree} of {len(cases)}")
     if nmis > 3:
